@@ -5,6 +5,7 @@ Generated:
   IDLE ACTIVE CONNECT OPENSENT OPENCONFIRM ESTABLISHED : Z      (FSM.STATE members, by name)
   states : list Z
   allowed (a b : Z) : bool       a -> b is listed in FSM.transition[b]  (the table is `to: [from, ...]`)
+  msg_size_after_both_opens : bool    where _establish copies negotiated.msg_size to the connection (two known places)
   openwait_notify / establish_timer_notify / main_teardown_notify / process_up_notify : Z * Z
                                  the (code, subcode) literals of the Notify raised at those places
 
@@ -12,7 +13,8 @@ Checked, not translated (anything else raises Untranslatable; Model_Session.v do
   * FSM.change: assigns self.state, calls processes.fsm under the api['fsm'] test, no transition check;
   * Peer._establish: the ORDER of  fsm.change(ACTIVE) / passive wait / fsm.change(IDLE) / `if not self.proto:
     await self._connect()` / fsm.change(CONNECT) / [local_as] _send_open, negotiated.sent, fsm.change(OPENSENT) /
-    _read_open, negotiated.received / [not local_as] _send_open .. fsm.change(OPENSENT) / proto.validate_open() /
+    _read_open, negotiated.received / (connection.msg_size := negotiated.msg_size HERE or after the next block) /
+    [not local_as] _send_open .. fsm.change(OPENSENT) / proto.validate_open() /
     fsm.change(OPENCONFIRM) / recv_timer = ReceiveTimer(..) / _send_ka / _read_ka / fsm.change(ESTABLISHED);
   * Peer._send_open/_read_open/_send_ka/_read_ka call proto.new_open/read_open/new_keepalive/read_keepalive;
     _read_ka waits with `asyncio.wait_for(.., timeout=holdtime or None)` and raises a literal Notify on timeout;
@@ -165,6 +167,8 @@ def tokens(stmts, out, cond=''):
     return out
 
 
+MSG_SIZE = 'self.proto.connection.msg_size = self.proto.negotiated.msg_size'
+
 ESTABLISH = [
     'self.fsm.change(FSM.ACTIVE)',
     '[getenv().bgp.passive]while not self.proto: await asyncio.sleep(0)',
@@ -178,11 +182,12 @@ ESTABLISH = [
     'received_open = await self._read_open()',
     'self.proto.negotiated.received(received_open)',
     'self.proto.negotiated.received(received_open)',
-    'self.proto.connection.msg_size = self.proto.negotiated.msg_size',
+    MSG_SIZE,  # position A: right after the peer's OPEN (our OPEN may not be sent yet when local-as is mirrored)
     '[not self.neighbor.session.local_as]sent_open = await self._send_open()',
     '[not self.neighbor.session.local_as]self.proto.negotiated.sent(sent_open)',
     '[not self.neighbor.session.local_as]self.proto.negotiated.sent(sent_open)',
     '[not self.neighbor.session.local_as]self.fsm.change(FSM.OPENSENT)',
+    MSG_SIZE,  # position B: after both OPENs are known
     'self.proto.validate_open()',
     'self.fsm.change(FSM.OPENCONFIRM)',
     None,  # self.recv_timer = ReceiveTimer(...)
@@ -205,10 +210,21 @@ def notify_literal(node, where):
 def check_establish(tree):
     f = find_function(tree, ['Peer', '_establish'])
     got = tokens(no_doc(f.body), [])
-    if len(got) != len(ESTABLISH):
-        fail(PEER, f'_establish has {len(got)} significant statements, the model knows {len(ESTABLISH)}: {got}')
+    # the connection's message size is taken from the negotiation at exactly ONE of the two known places
+    slots = [i for i, w in enumerate(ESTABLISH) if w == MSG_SIZE]
+    if got.count(MSG_SIZE) != 1 or len(got) != len(ESTABLISH) - 1:
+        fail(PEER, f'_establish has {len(got)} significant statements ({got.count(MSG_SIZE)} msg_size assignments), the model knows {len(ESTABLISH) - 1} with one: {got}')
+    after_both = None
+    for cand, drop in ((False, slots[1]), (True, slots[0])):
+        want = [w for i, w in enumerate(ESTABLISH) if i != drop]
+        if all(w is None or g == w for g, w in zip(got, want)):
+            after_both = cand
+            expected = want
+    if after_both is None:
+        first = next((f'expected `{w}`, found `{g}`' for g, w in zip(got, [w for i, w in enumerate(ESTABLISH) if i != slots[1]]) if w is not None and g != w), '')
+        fail(PEER, f'_establish: order of calls changed ({first}); the msg_size assignment is at neither known place')
     timer = None
-    for g, w in zip(got, ESTABLISH):
+    for g, w in zip(got, expected):
         if w is None:
             if not g.startswith('self.recv_timer = ReceiveTimer('):
                 fail(PEER, f'_establish: expected the ReceiveTimer creation, found {g}')
@@ -245,7 +261,7 @@ def check_establish(tree):
     if 'asyncio.wait_for(self.proto.read_open(' not in u(tries[0].body[0]) or 'timeout=wait' not in u(tries[0].body[0]):
         fail(PEER, '_read_open does not wait_for(read_open, timeout=wait)')
     openwait = notify_literal(tries[0].handlers[0].body[-1], '_read_open timeout')
-    return est_timer, openwait, readka
+    return est_timer, openwait, readka, after_both
 
 
 def check_connect(tree):
@@ -498,7 +514,7 @@ def check_protocol(tree):
 def generate(repo: str) -> str:
     codes, table = fsm_table(parse(repo, FSM))
     peer = parse(repo, PEER)
-    est_timer, openwait, readka = check_establish(peer)
+    est_timer, openwait, readka, msg_after_both = check_establish(peer)
     check_connect(peer)
     check_run(peer)
     check_close_reset_stop(peer)
@@ -523,6 +539,9 @@ def generate(repo: str) -> str:
     def pair(name, p):
         out.append(f'Definition {name} : Z * Z := ({p[0]}, {p[1]}).')
 
+    out.append('(* where Peer._establish copies negotiated.msg_size to the connection: true = after both OPENs are known,')
+    out.append('   false = right after the peer OPEN is read (before our OPEN is sent when the local AS is mirrored) *)')
+    out.append(f'Definition msg_size_after_both_opens : bool := {"true" if msg_after_both else "false"}.')
     pair('openwait_notify', openwait)
     pair('establish_timer_notify', est_timer)
     pair('read_ka_timeout_notify', readka)
